@@ -11,36 +11,39 @@
    Once a fill produces counters that differ from the as-coded machine (a repaired client), the
    trace is marked `diverged` and only the ideal rule is demanded from then on. *)
 EXTENDS Integers, Sequences, FiniteSets, TLC, Json, IOUtils, TLCExt
-CONSTANTS MaxGroups, Batches, Acts, MaxBuilt, MaxCalls, MaxCtx, Chain0, MempoolKey, Repaired
-VARIABLES chainCtr, mempool, nctx, cache, ep, groups, accSet, refSet, log, calls, lastInj, hist,
-          tid, l, key, diverged
-RA == INSTANCE OpClient WITH MempoolKey <- "applied"
-RV == INSTANCE OpClient WITH MempoolKey <- "validated"
+CONSTANTS Families,     \* not used: the bounds record `fam` is built from each trace's first line
+          Repaired, MaxCtx
+VARIABLES chainCtr, mempool, nctx, cache, ep, groups, accSet, refSet, log, calls, lastInj, hist, fam,
+          tid, l, diverged
+RA == INSTANCE OpClient
 None == -1
 
 Traces == JsonDeserialize(IOEnv.TRACE_FILE)
-tvars == <<chainCtr, mempool, nctx, cache, ep, groups, accSet, refSet, log, calls, lastInj, hist, tid, l, key, diverged>>
+tvars == <<chainCtr, mempool, nctx, cache, ep, groups, accSet, refSet, log, calls, lastInj, hist, fam, tid, l, diverged>>
 Classes == {"stale-cache-after-failed-simulation", "stale-cache-after-abandoned-fill", "plain-fill-with-nonempty-mempool",
             "autofill-ignores-validated-mempool", "stale-cache-after-block", "inject-between-pipelined-fills",
             "pipelined-fills-in-separate-contexts"}
 
 Chain(t) == IF t <= Len(Traces) THEN Traces[t][1].chain ELSE 0
 Key(t) == IF t <= Len(Traces) THEN Traces[t][1].key ELSE "applied"
+\* the mempool RPC form of the recorded session is the only bound that matters here
+Fam(t) == [name |-> "trace", groups |-> 100000, batches |-> {}, acts |-> {}, built |-> 100000, calls |-> 100000,
+           ctx |-> MaxCtx, chain0 |-> Chain(t), key |-> Key(t)]
 
-Init == /\ tid = 1 /\ l = 2 /\ key = Key(1) /\ diverged = FALSE
+Init == /\ tid = 1 /\ l = 2 /\ fam = Fam(1) /\ diverged = FALSE
         /\ chainCtr = Chain(1) /\ mempool = <<>> /\ nctx = 0
         /\ cache = [c \in 1..MaxCtx |-> None] /\ ep = [c \in 1..MaxCtx |-> RA!EmptyEp]
         /\ groups = <<>> /\ accSet = {} /\ refSet = {} /\ log = <<>> /\ calls = 0 /\ lastInj = 0 /\ hist = <<>>
         /\ TLCSet(1, 0)
-NextTrace == /\ tid' = tid + 1 /\ l' = 2 /\ key' = Key(tid + 1) /\ diverged' = FALSE
+NextTrace == /\ tid' = tid + 1 /\ l' = 2 /\ fam' = Fam(tid + 1) /\ diverged' = FALSE
              /\ chainCtr' = Chain(tid + 1) /\ mempool' = <<>> /\ nctx' = 0
              /\ cache' = [c \in 1..MaxCtx |-> None] /\ ep' = [c \in 1..MaxCtx |-> RA!EmptyEp]
              /\ groups' = <<>> /\ accSet' = {} /\ refSet' = {} /\ log' = <<>> /\ calls' = 0 /\ lastInj' = 0 /\ hist' = <<>>
 
 Ev == Traces[tid][l]
-NewRec(g, plain) == IF key = "applied" THEN RA!NewRec(g, plain) ELSE RV!NewRec(g, plain)
-Cause(r, want) == IF key = "applied" THEN RA!Cause(r, want) ELSE RV!Cause(r, want)
-Same == UNCHANGED <<tid, key, hist, log, calls>>
+NewRec(g, plain) == RA!NewRec(g, plain)
+Cause(r, want) == RA!Cause(r, want)
+Same == UNCHANGED <<tid, fam, hist, log, calls>>
 
 \* ---- preconditions: the recorded event fits the machine's state (otherwise the recorder/harness is wrong) ----
 NodeOk == Ev.chain = chainCtr /\ Ev.pend = RA!Pending
